@@ -47,7 +47,8 @@ static const std::vector<std::string>& value_pool()
                                                 "-o",    "=x",    "value with  two blanks",
                                                 "0",     "-1",    "2147483647", "-2147483648",
                                                 "123456789012", "3.25", "-0.125", "1000000",
-                                                "65535", "0.001", "010", "0089", "-0012", "0100" };
+                                                "65535", "0.001", "010", "0089", "-0012", "0100",
+                                                "{}",    "%s",    "a{}b",   "{0}" };
     return p;
 }
 
@@ -174,7 +175,17 @@ static void gen_limit(vf::Src& src, Case& c)
 {
     static const long long lims[] = { 0, 1, 2, 3, 5, -1 };
     c.limit = lims[src.weighted({ 25, 15, 15, 10, 5, 30 })];
+    // accepted counts far beyond any command line, around the 32-bit boundaries
+    if (src.coin(4))
+    {
+        static const long long big[] = { 1ll << 31, (1ll << 32) - 1, 1ll << 32, (1ll << 32) + 1, (1ll << 32) + 2,
+                                         3ll << 32, 0x7fffffffffffffffll };
+        c.limit = big[src.index(7)];
+    }
     c.greedy = src.coin(30);
+    // the setters are called more than once now and then: the last call decides
+    if (src.coin(12))
+        c.reconfig = src.irange(1, 3);
 }
 
 static Step blank_step(const Case& c)
@@ -258,6 +269,14 @@ static void gen_env(vf::Src& src, const Case& c, Step& s, int p_set)
     }
 }
 
+// a value for a declared value-taking entry: now and then exactly its declared default, spelled out
+static std::string value_for(vf::Src& src, const Entry& e)
+{
+    if (e.kind == OPTION && e.has_default && src.coin(25))
+        return e.def;
+    return gen_value(src);
+}
+
 // a token that stands in a chosen relation to the declaration
 static void gen_related_tokens(vf::Src& src, const Case& c, std::vector<std::string>& argv,
                                bool allow_no)
@@ -327,11 +346,11 @@ static void gen_related_tokens(vf::Src& src, const Case& c, std::vector<std::str
                 switch (src.weighted({ 45, 45, 10 }))
                 {
                 case 0:
-                    argv.push_back(t + "=" + gen_value(src));
+                    argv.push_back(t + "=" + value_for(src, e));
                     break;
                 case 1:
                     argv.push_back(t);
-                    argv.push_back(gen_value(src)); // may be option-like: value missing
+                    argv.push_back(value_for(src, e)); // may be option-like: value missing
                     break;
                 default:
                     argv.push_back(t); // value missing unless a value token follows by chance
@@ -360,12 +379,12 @@ static void gen_related_tokens(vf::Src& src, const Case& c, std::vector<std::str
                 argv.push_back(t);
             }
             else if (src.coin(50))
-                argv.push_back(t + "=" + gen_value(src));
+                argv.push_back(t + "=" + value_for(src, e));
             else
             {
                 argv.push_back(t);
                 if (src.coin(85))
-                    argv.push_back(gen_value(src));
+                    argv.push_back(value_for(src, e));
             }
             break;
         }
@@ -901,8 +920,9 @@ static void gen_c12(vf::Src& src, Case& c)
     gen_limit(src, c);
     Step st = blank_step(c);
     // steer the number of positionals to limit-1, limit, limit+1
-    int target = c.limit < 0 ? (src.coin(92) ? src.irange(0, 6) : src.irange(30, 300))
-                             : std::max<int>(0, static_cast<int>(c.limit) + src.irange(-1, 1));
+    // (an accepted count beyond any command line behaves like "unlimited" for the generator)
+    int target = c.limit < 0 || c.limit > 1000 ? (src.coin(92) ? src.irange(0, 6) : src.irange(30, 300))
+                                               : std::max<int>(0, static_cast<int>(c.limit) + src.irange(-1, 1));
     int placed = 0;
     bool after_dd = false;
     int guard = 0;
@@ -1144,11 +1164,14 @@ Case generate(vf::Src& src, const std::string& mode)
     {
         DeclOpts o;
         o.p_optional = 90;
+        o.env = true;
         gen_decl(src, c, o);
         gen_limit(src, c);
         if (src.coin(40))
             c.limit = -1;
         Step st = blank_step(c);
+        // a bound and set variable must not make a spelled-out argument disappear
+        gen_env(src, c, st, 35);
         int k = src.irange(0, 8);
         for (int i = 0; i < k && st.argv.size() < 10; ++i)
             gen_related_tokens(src, c, st.argv, true);
@@ -1209,6 +1232,22 @@ Case generate(vf::Src& src, const std::string& mode)
         gen_c14(src, c);
     else
         throw std::runtime_error("unknown mode " + mode);
+    // bytes that C-string handling or line-oriented tooling treats specially, at the places where
+    // they would be lost: a carriage return at the very end of the last argument, a NUL inside a
+    // token (a token can only hold one when it is handed over as a user_input object)
+    if ((mode == "c01" || mode == "c04" || mode == "c12") && !c.steps.empty() && !c.steps[0].argv.empty() &&
+        !c.argc0)
+    {
+        auto& argv = c.steps[0].argv;
+        if (src.coin(4))
+            argv.back() += "\r";
+        if (!c.via_argv && src.coin(6))
+        {
+            std::string& t = argv[src.index(argv.size())];
+            t.push_back('\0');
+            t += src.coin(60) ? "q" : "";
+        }
+    }
     // part of the declaration may be made only after a first parse() on the object (c02 and c14
     // decide that themselves)
     if ((mode == "c01" || mode == "c03" || mode == "c04" || mode == "c11" || mode == "c12") &&
